@@ -157,6 +157,20 @@ class Runner(object):
                 lst.append(k)
                 live[k] = inst
             st['instances'][c['name']] = lst
+        # class -> class across an association class (the link class is skipped): a read like any other - asked first,
+        # so that whatever it leaves behind shows in the one-hop observations below
+        for i, a in enumerate(self.schema.assocs):
+            if a.get('shape') != 'assoc' or a['tgt_phrase'] or a['src_phrase']:
+                continue
+            for j, b in enumerate(self.schema.assocs):
+                if j == i or b['rel'] != a['rel'] or b['src'] != a['src'] or b.get('shape') != 'assoc' or \
+                        b['tgt'].upper() == a['tgt'].upper() or b['tgt_phrase'] or b['src_phrase']:
+                    continue
+                for k in st['instances'][self.schema.cls(a['tgt'])['name']]:
+                    want = [p.idx for p in self.sh.nav1(self.sh.recs[k], b['tgt'], a['rel'], '')]
+                    got = [self.idx_of(r) for r in xtuml.navigate_many(live[k]).nav(b['tgt'], a['rel'])()]
+                    if got != want:
+                        self.fail('navigation-across-association-class', 'R%d from #%d to %s: got %r want %r' % (a['rel'], k, b['tgt'], got, want))
         for a in self.schema.assocs:
             fwd, bwd = {}, {}
             for k in st['instances'][self.schema.cls(a['src'])['name']]:
